@@ -76,6 +76,12 @@ def _cases(tier, rng):
         if rng.random() < 0.4:
             term = wrap_in(rng, term)
         yield {'kind': 'mux', 'term': term, 'items': items}
+    # a key mapper with a state of its own (round-robin assignment): it is called once per item, so item j goes to group j % k
+    for _ in range({'quick': 30, 'thorough': 200, 'search': 20}[tier]):
+        k = rng.choice([2, 3, 5])
+        inner = rng.choice([[['to_list']], [['count', False]], [['last']]])
+        term = [['group_by', ['round_robin', k], inner]]      # top level only: one mapper object, one parent key
+        yield {'kind': 'mux', 'term': term, 'items': [rng.randrange(9) for _ in range(rng.choice([3, 5, 9, 16]))], 'no_model': True}
     n = {'quick': 1500, 'thorough': 10000, 'search': 600}[tier]
     for _ in range(n):
         kf = rng.choice(KEYS)
@@ -94,6 +100,18 @@ def _cases(tier, rng):
         nk = rng.choice([1, 2, 3, 6, 12])
         items = [rng.randrange(nk * 3) for _ in range(k)]
         yield {'kind': 'mux', 'term': term, 'items': items}
+
+
+def model_cmds(case):
+    return [] if case.get('no_model') else muxprop.model_cmds(case)
+
+
+def model_result(case, ans):
+    return {} if case.get('no_model') else muxprop.model_result(case, ans)
+
+
+def compare(case, r, m):
+    return None if case.get('no_model') else muxprop.compare(case, r, m)
 
 
 def nontrivial(case, r):
